@@ -579,7 +579,11 @@ impl<'a> R1<'a> {
                 match (f, &a) {
                     (PFn::Square, T::I(n)) => self.eq(&T::I(n * n), &b, st),
                     (PFn::Succ, T::I(n)) => self.eq(&T::I(n + 1), &b, st),
-                    (PFn::Square, _) | (PFn::Succ, _) => vec![],
+                    (PFn::HeadSquare, T::Cons(h, _)) => match **h {
+                        T::I(n) => self.eq(&T::I(n * n), &b, st),
+                        _ => vec![],
+                    },
+                    (PFn::Square, _) | (PFn::Succ, _) | (PFn::HeadSquare, _) => vec![],
                     (PFn::IsNumber, T::I(_)) => vec![st],
                     (PFn::IsNumber, _) => vec![],
                     (PFn::IsVar, T::V(_)) => vec![st],
